@@ -15,6 +15,7 @@ structure D where
   addrs : List Bytes
   heights : List Nat
   mainnet : Bool := false
+  committed : State := State.empty 0   -- account state as of the last block end (what `rewind` falls back to)
 
 def D.init : D := { st := State.empty 0, live := false, ids := [], accts := [], addrs := [], heights := [] }
 
@@ -80,7 +81,8 @@ def stepOpt (d : D) (ws : List String) : Option (D × String) :=
   | ["reset", h] => do
     let h ← h.toNat?
     -- the public-key cache is a process-wide LevelDB: it survives the reset of the account state
-    pure ({ D.init with st := { State.empty h with pk := d.st.pk }, live := true, heights := [h], mainnet := d.mainnet }, "ok")
+    let d0 : D := { D.init with st := { State.empty h with pk := d.st.pk }, live := true, heights := [h] }
+    pure ({ d0 with committed := State.empty h, mainnet := d.mainnet }, "ok")
   | ["config", c] =>
     -- fork schedule: every flag on the miner path has the modelled value beyond the network's last proposal;
     -- the one network-dependent branch is `IsMainnet() && type == proposer` in minerApplyExecutor
@@ -142,7 +144,11 @@ def stepOpt (d : D) (ws : List String) : Option (D × String) :=
       pure ({ d with st := r.2 }, if r.1 then "ok" else "err")
     | ["endblock", n] => do
       let n ← n.toNat?
-      pure ({ d with st := endBlock d.st n, heights := d.heights ++ [n] }, "ok")
+      pure ({ d with st := endBlock d.st n, committed := endBlock d.st n, heights := d.heights ++ [n] }, "ok")
+    | ["rewind"] =>
+      -- the block being executed is discarded: the account state falls back to the last block end; the public-key
+      -- cache is not part of it and keeps what the discarded block put there
+      pure ({ d with st := rewind d.committed d.st }, "ok")
     | ["dump"] => pure (d, dump d)
     | _ => none
 
